@@ -1,17 +1,17 @@
 #!/usr/bin/env python3
-"""usage: tools_archive_seed.py <NN> <dir-name> <property> <json: needs/caught_by/...>
-Copies /tmp/seed/out<NN>/{patch.diff,demo.sh,notes.md,demo_test.go} to /verif/seeded/<dir-name>/ and writes meta.json."""
+"""usage: tools_archive_seed.py <seedroot> <tag> <dir-name> <property> <json: needs/caught_by/...>
+Copies <seedroot>/out<tag>/{patch.diff,patch.orig.diff,demo.sh,notes.md} to /verif/seeded/<dir-name>/ and writes meta.json."""
 import sys, os, json, shutil, subprocess
-nn, name, prop, extra = sys.argv[1], sys.argv[2], sys.argv[3], json.loads(sys.argv[4])
-src = "/tmp/seed/out" + nn
+root, tag, name, prop, extra = sys.argv[1], sys.argv[2], sys.argv[3], sys.argv[4], json.loads(sys.argv[5])
+src = os.path.join(root, "out" + tag)
 dst = "/verif/seeded/" + name
 os.makedirs(dst, exist_ok=True)
-for f in ("patch.diff", "demo.sh", "notes.md", "demo_test.go"):
+for f in ("patch.diff", "patch.orig.diff", "demo.sh", "notes.md", "demo_test.go"):
     if os.path.exists(os.path.join(src, f)):
         shutil.copy(os.path.join(src, f), os.path.join(dst, f))
-ok = subprocess.run(["git", "-C", "/repo", "apply", "--check", os.path.join(dst, "patch.diff")]).returncode == 0
-meta = {"property": prop, "author": "independent sub-agent given only the property text and a scratch worktree",
-        "base_commit": subprocess.run(["git", "-C", "/tmp/seed/wt" + nn, "rev-parse", "--short", "HEAD"], capture_output=True, text=True).stdout.strip(),
+ok = subprocess.run(["git", "-C", "/repo", "apply", "--check", os.path.join(dst, "patch.diff")], capture_output=True).returncode == 0
+meta = {"property": prop, "author": "independent sub-agent given only the property text (with its anchors) and a scratch worktree",
+        "head_when_archived": subprocess.run(["git", "-C", "/repo", "rev-parse", "--short", "HEAD"], capture_output=True, text=True).stdout.strip(),
         "applies_to_current_repo_head": ok}
 meta.update(extra)
 json.dump(meta, open(os.path.join(dst, "meta.json"), "w"), indent=1)
